@@ -187,6 +187,10 @@ inductive TRes where
   | ok (ap : AP) (axes : List Int)
 deriving Repr
 
+/-- strides `AP.T` gives the transpose `(b, a)` of a two-dimensional vector `(a, b)` with strides `(s0, s1)`: the axis
+    that holds the elements keeps its stride, the axis of extent one gets 1 -/
+def vectorTStrides (b s0 s1 : Int) : List Int := if b > 1 then [s1, 1] else [1, s0]
+
 /-- `AP.T(axes...)`. -/
 def AP.T (ap : AP) (axes : List Int) : Res TRes := do
   let dims := ap.shape.length
@@ -199,12 +203,13 @@ def AP.T (ap : AP) (axes : List Int) : Res TRes := do
     if axes.head? == some 0 then
       -- Go returns the zero AP with a nil error here
       return .ok {} axes
-    -- `strides := make([]int, len(currentStride)); strides[0], strides[1] = 1, 1`
+    -- `strides := make([]int, len(currentStride)); strides[0], strides[1] = 1, 1`, then the axis that holds the
+    -- elements takes over its stride (`if shape[0] > 1 { strides[0] = currentStride[1] } else { strides[1] = currentStride[0] }`)
     if ap.strides.length < 2 then throwPanic "vector with fewer than two strides: strides[1] out of range"
-    match ap.shape with
-    | [a, b] =>
-      return .ok { shape := [b, a], strides := [1, 1], fin := true, o := { ap.o with transposed := true } } axes
-    | _ => throwPanic "vector of rank 1 with axes[0] != 0: shape[1] out of range"
+    match ap.shape, ap.strides with
+    | [a, b], s0 :: s1 :: _ =>
+      return .ok { shape := [b, a], strides := vectorTStrides b s0 s1, fin := true, o := { ap.o with transposed := true } } axes
+    | _, _ => throwPanic "vector of rank 1 with axes[0] != 0: shape[1] out of range"
   else
     let sh ← unsafePermute axes ap.shape
     let st ← unsafePermute axes ap.strides
